@@ -992,6 +992,12 @@ impl Brc20ProgDatabase {
             .into());
         }
 
+        // Blocks that are only in memory are made durable first (heights before state, as in any
+        // commit): the tables below write their rows while they roll back, and if the process died
+        // before the block tables followed, rows of blocks above the durable height would stay behind
+        // a height that a repeated reorg treats as already reached.
+        self.commit_changes()?;
+
         self.db_account_memory
             .as_mut()
             .expect(DB_MUTEX_ERROR)
